@@ -21,17 +21,23 @@ def expr_set_functions():
     src = X.Source(EX)
     out = []
     gs = X.function(src, "expression_t::get_symbols", r"^void expression_t::get_symbols\(std::set<symbol_t>& symbols\) const")
-    X.rename_self_calls(gs, "get_symbols", pattern=r"\.get_symbols\(", minimum=5)
+    X.rename_self_calls(gs, "get_symbols", pattern=r"\.get_symbols\(", minimum=0)
     cw = X.function(src, "expression_t::collect_possible_writes", r"^void expression_t::collect_possible_writes\(set<symbol_t>& symbols\) const")
-    X.rename_self_calls(cw, "collect_possible_writes", pattern=r"\.collect_possible_writes\(", minimum=1)
-    X.rename_self_calls(cw, "get_symbols", pattern=r"\.get_symbols\(", minimum=2, rule="L12b:callee->contract")
+    X.rename_self_calls(cw, "collect_possible_writes", pattern=r"\.collect_possible_writes\(", minimum=0)
+    X.rename_self_calls(cw, "get_symbols", pattern=r"\.get_symbols\(", minimum=0, rule="L12b:callee->contract")
     cr = X.function(src, "expression_t::collect_possible_reads", r"^void expression_t::collect_possible_reads\(set<symbol_t>& symbols, bool collectRandom\) const")
-    X.rename_self_calls(cr, "collect_possible_reads", pattern=r"\.collect_possible_reads\(", minimum=1)
-    X.lower_if_init(cr)
-    cr.sub("L15:auto->symbol_t", r"auto symbol = get\(0\)\.get_symbol\(\);", "symbol_t symbol = get(0).get_symbol();", required=True)
-    cr.sub("L15:auto->type_t", r"auto type = symbol\.get_type\(\)", "type_t type = symbol.get_type()", required=True)
-    cr.sub("L15:auto->function_t*", r"auto fun = static_cast<function_t\*>\(data\);", "function_t* fun = static_cast<function_t*>(data);", required=True)
-    cr.sub("L15:auto*->void*", r"auto\* data = symbol\.get_data\(\)", "void* data = symbol.get_data()", required=True)
+    X.rename_self_calls(cr, "collect_possible_reads", pattern=r"\.collect_possible_reads\(", minimum=0)
+    def lower_autos(sl):
+        """Rule L15 by the shape of the initialiser (the collectors use the same few accessors)."""
+        X.lower_if_init(sl, required=False)
+        sl.sub("L15:auto->symbol_t", r"\bauto (\w+) = ([^;]*?\.get_symbol\(\))", r"symbol_t \1 = \2")
+        sl.sub("L15:auto->type_t", r"\bauto (\w+) = ([^;]*?\.get_type\(\))", r"type_t \1 = \2")
+        sl.sub("L15:auto->T*", r"\bauto\*? (\w+) = static_cast<(\w+)\*>", r"\2* \1 = static_cast<\2*>")
+        sl.sub("L15:auto*->void*", r"\bauto\* (\w+) = ([^;]*?\.get_data\(\))", r"void* \1 = \2")
+        if re.search(r"\bauto\b", sl.text):
+            raise X.ExtractionBroken(f"slice {sl.name}: an `auto` declaration rule L15 cannot type")
+    lower_autos(cr)
+    lower_autos(cw)
     cv = X.function(src, "expression_t::changes_variable", r"^bool expression_t::changes_variable\(const std::set<symbol_t>& symbols\) const")
     ca = X.function(src, "expression_t::changes_any_variable", r"^bool expression_t::changes_any_variable\(\) const")
     ca.sub("glue:rename-definition(real vs ghost stub)", r"expression_t::changes_any_variable\(\)", "expression_t::changes_any_variable_real()", required=True)
@@ -40,10 +46,22 @@ def expr_set_functions():
         f.sub("L4:auto x = std::set<symbol_t>{}", r"auto changes = std::set<symbol_t>\{\};", "verif_symset changes;", required=True)
         f.sub("L12b:collect_possible_writes(*this)->contract", r"\bcollect_possible_writes\(changes\)", "collect_possible_writes__contract(changes)", required=True)
     do.sub("L12b:collect_possible_reads(*this)->contract", r"\bcollect_possible_reads\(dependencies\)", "collect_possible_reads__contract(dependencies)", required=True)
+    # file-local static helpers a refactoring may have split off the three collectors come along, with the same lowering
+    # (calls on a sub-expression go to the callee's contract)
+    helpers = []
+    used = "".join(f.text for f in (gs, cw, cr))
+    for h in X.static_helpers(src):
+        hname = h.name.split()[-1]
+        if re.search(r"\b%s\(" % re.escape(hname), used) and re.search(r"set<symbol_t>", h.text):
+            for fn in ("get_symbols", "collect_possible_writes", "collect_possible_reads"):
+                X.rename_self_calls(h, fn, pattern=r"\.%s\(" % fn, minimum=0, rule="L12b:callee->contract")
+            h.sub("L15:auto*->explicit pointer", r"auto\* (\w+) = \((\w+)\*\)", r"\2* \1 = (\2*)")
+            h.sub("L15:auto*->explicit pointer", r"auto\* (\w+) = static_cast<(\w+)\*>", r"\2* \1 = static_cast<\2*>")
+            h.sub("L17:std::set<symbol_t>->bitmask", r"(std::)?set<symbol_t>", "verif_symset")
+            helpers.append(h)
     for f in (gs, cw, cr, cv, ca, do):
         f.sub("L17:std::set<symbol_t>->bitmask", r"(std::)?set<symbol_t>", "verif_symset", required=(f is not ca))
-        out.append(f)
-    return out
+    return helpers + [gs, cw, cr, cv, ca, do]
 
 
 VE = r"^void TypeChecker::visitEdge\(edge_t& edge\)"
@@ -168,11 +186,19 @@ def gate_slices():
         fn = X.function(src, "fn:" + g["name"], g["fn"])
         rng = (fn.start, fn.end)
         if g.get("within"):
-            st = X.statement(src, g["name"] + ":enclosing-loop", g["within"], rng)
-            rng = (st.start, st.end)
+            # the enclosing loop tells two textually equal gates of one function apart; when a refactoring has merged them
+            # (one shared helper / local lambda) the loop anchor is gone and the gate is unique in the function
+            try:
+                st = X.statement(src, g["name"] + ":enclosing-loop", g["within"], rng)
+                rng = (st.start, st.end)
+            except X.ExtractionBroken:
+                pass
         if g.get("within_if"):
-            st = X.if_chain(src, g["name"] + ":enclosing-if", g["within_if"], rng)
-            rng = (st.start, st.end)
+            try:
+                st = X.if_chain(src, g["name"] + ":enclosing-if", g["within_if"], rng)
+                rng = (st.start, st.end)
+            except X.ExtractionBroken:
+                pass  # as above: merged into one shared helper / lambda
         sl = X.if_chain(src, "typechecker.cpp gate:" + g["name"], g["anchor"], rng)
         if g.get("trunc"):
             truncate_final_else(sl)
